@@ -54,7 +54,9 @@ let handle kind c =
   | "step" ->
     let arg = next c in
     let cmd = cmd_of arg in
-    let today = next_z c in
+    let now = next_z c in
+    let off = next_z c in
+    let today = utc_day now in
     let before = read_tree c in
     let after = read_tree c in
     let exit = next_int c in
@@ -65,7 +67,7 @@ let handle kind c =
     let lib_date = next_bytes c in
     let ok = exit = 0 in
     (* model vs implementation *)
-    let (mt, mok) = cli_run cmd today before in
+    let (mt, mok) = cli_run_at cmd now off before in
     check_eq "tree-after" show_tree (norm_tree mt) (norm_tree after);
     check_eq "exit-ok" string_of_bool mok ok;
     check_eq "env-after" esc (cli_env_output tdir after) env_after;
@@ -74,7 +76,9 @@ let handle kind c =
     check_eq "lib-date" esc (date_or_zero rd) lib_date;
     if cmd = CEnv then check_eq "env-stdout" esc (cli_env_output tdir before) stdout;
     (* the property on the real before/after pair *)
-    let detail () = Printf.sprintf "cmd=%s exit=%d before=%s after=%s" arg exit (show_tree before) (show_tree after) in
+    let detail () = Printf.sprintf "cmd=%s utc-date=%s zone-offset=%ss local-date=%s exit=%d before=%s after=%s" arg
+        (string_of_bytes (fmt_date today)) (match off with Z0 -> "0" | Zpos _ -> "+" ^ string_of_int (int_of_z off) | Zneg _ -> string_of_int (int_of_z off))
+        (string_of_bytes (fmt_date (local_day now off))) exit (show_tree before) (show_tree after) in
     (match cmd with
      | CClean ->
        if not (dir_diff_ok cmd today before after ok) then prop "clean-exact" (detail ())
@@ -100,22 +104,41 @@ let handle kind c =
          if (not noop) && not (beq lib_date (fmt_date today)) then
            prop "mode-readback" (Printf.sprintf "library date=%s after %s; %s" (esc lib_date) arg (detail ()))
        end)
+  | "nodir" ->
+    let arg = next c in
+    let cmd = cmd_of arg in
+    let off = next_z c in
+    let before = read_tree c in
+    let after = read_tree c in
+    let exit = next_int c in
+    let stdout = next_bytes c in
+    ignore off;
+    check_eq "nodir-exit-ok" string_of_bool (cli_run_nodir cmd) (exit = 0);
+    if cmd = CEnv then check_eq "nodir-env-stdout" esc cli_env_output_nodir stdout;
+    (* no telemetry directory: nothing anywhere may be read as a mode, rewritten or cleaned *)
+    if not (tree_eqb before after) then
+      prop "nodir-inert" (Printf.sprintf "cmd=%s without a user configuration directory changed the working directory: before=%s after=%s"
+                            arg (show_tree before) (show_tree after))
   | "setmode" ->
     let m = next_bytes c in
-    let day = next_z c in
+    let now = next_z c in
+    let off = next_z c in
+    let day = utc_day now in
     let before = read_tree c in
     let after = read_tree c in
     let ok = next_bool c in
     let lib_mode = next_bytes c in
     let lib_date = next_bytes c in
-    let (mt, mok) = cli_set_mode m day before in
+    let (mt, mok) = cli_set_mode_at m now off before in
     check_eq "setmode-tree" show_tree (norm_tree mt) (norm_tree after);
     check_eq "setmode-ok" string_of_bool mok ok;
     let (rm, rd) = cli_read_mode after in
     check_eq "setmode-lib-mode" esc rm lib_mode;
     check_eq "setmode-lib-date" esc (date_or_zero rd) lib_date;
     if ok && not (beq lib_mode m && beq lib_date (fmt_date day)) then
-      prop "mode-readback" (Printf.sprintf "SetModeAsOf(%s, day %s) reads back as %s %s" (esc m) (tok_of_z day) (esc lib_mode) (esc lib_date))
+      prop "mode-readback" (Printf.sprintf "SetModeAsOf(%s, instant %s s in zone %+d s: UTC date %s, zone's date %s) reads back as %s %s" (esc m)
+                             (tok_of_z now) (int_of_z off) (string_of_bytes (fmt_date day)) (string_of_bytes (fmt_date (local_day now off)))
+                             (esc lib_mode) (esc lib_date))
   | "readmode" ->
     let data = next_bytes c in
     let lib_mode = next_bytes c in
